@@ -320,6 +320,13 @@ func (bc *BasicCluster) PreCheckPutRegion(region *RegionInfo) (*RegionInfo, erro
 func (bc *BasicCluster) PutRegion(region *RegionInfo) []*RegionInfo {
 	bc.Lock()
 	defer bc.Unlock()
+	// A heartbeat that reports no raft term (TiKV before 3.0) keeps the term already known for the region:
+	// dropping it to 0 would let a later heartbeat with a smaller reported term pass PreCheckPutRegion.
+	if region.term == 0 {
+		if origin := bc.Regions.GetRegion(region.GetID()); origin != nil {
+			region.term = origin.term
+		}
+	}
 	return bc.Regions.SetRegion(region)
 }
 
